@@ -209,6 +209,7 @@ func runEngineW2(p *Prog, o *obls) {
 	for _, fn := range okFns {
 		o.ok("W2", funcKey(fn)+":width", p.Pos(fn.Pos()), fmt.Sprintf("%d site(s): shifts are done after widening (or cannot lose bits), slice sizes that are unsigned differences are ordered by a dominating comparison", looked[fn]))
 	}
+	w2DownLoops(p, o)
 	w3Tautologies(p, o)
 	w4IfaceConst(p, o)
 	o.ok("W2", "inspected", "-", fmt.Sprintf("%d widening conversion(s) of a constant shift, %d slice size(s) that are an unsigned difference", nConv, nMake))
